@@ -619,6 +619,10 @@ pub fn run(args: &Args) {
         let t = rand_bytes_biased(&mut rng, 24);
         words_case(&mut cx, &t);
         case_conv(&mut cx, &t);
+        // letters at the edges of the alphabet ranges and their neighbours, long enough for the 8-byte chunk path
+        let ct: Vec<u8> = (0..rng.below(41)).map(|_| *rng.pick(b"AZaz@[`{MmNn09_ \xc3\x89\xff")).collect();
+        case_conv(&mut cx, &ct);
+        words_case(&mut cx, &ct);
         let line_alpha = ["a", "b", "\n", "\r\n", "\r", " ", ""];
         let text: String = (0..rng.below(8)).map(|_| *rng.pick(&line_alpha)).collect();
         lines_case(&mut cx, &text);
